@@ -35,7 +35,14 @@ inline std::string err_name(const ErrorRec& e) {
 inline bool do_update(World& w, Outcome& o, UpdateOutcome& up) {
     up = w.cfg.update();
     if (up.err.kind == ErrorRec::hash_search) {
-        o.inconclusive = true;
+        // no search budget is injected here (only the hash engine does that)
+        // and the registered ids are distinct by construction: the search
+        // does not fail on such sets (0 failures in 10^7 cases on the
+        // unchanged tree), so a failure means update handed it something
+        // else than the set of registered ids
+        o.fail("update-error: the hash search failed on the " +
+               std::to_string(w.spec.n) +
+               " classes' distinct ids (no search budget was injected)");
         return false;
     }
     if (up.err.kind != ErrorRec::none) {
